@@ -338,11 +338,15 @@ def _append_seq(run):
 
 def _seq_ok(seq, w, k):
     """[('append', ('iter', ..)) id] [size] [('append', ('slice', w, _)) payload]"""
-    if len(seq) != 3:
-        return False, "expected three appends (id, size field, payload)"
-    idp, size, pay = seq
-    if not (idp[0] == "append" and idp[1] and idp[1][0] == "iter"):
+    # the id comes first: appended from an iterator over its significant bytes, or pushed byte by byte (bytes of an arbitrary id are not constants)
+    n_id = 0
+    while n_id < len(seq) and ((seq[n_id][0] == "append" and seq[n_id][1] and seq[n_id][1][0] == "iter") or (seq[n_id][0] == "push" and seq[n_id][1] is None)):
+        n_id += 1
+    if n_id == 0:
         return False, "the first append is not the id"
+    if len(seq) - n_id != 2:
+        return False, "expected the id followed by two appends (size field, payload)"
+    size, pay = seq[n_id:]
     declared = None
     if size[0] == "push":
         if k not in (None, 0):
